@@ -135,7 +135,7 @@ func (c *Ctx) SSA() (*ssa.Program, []*ssa.Package) {
 }
 
 func (c *Ctx) Pkg(rel string) *packages.Package {
-	if rel == "" || rel == "." {
+	if rel == "" || rel == "." || rel == "fp" {
 		return c.ByPath[ModPath]
 	}
 	return c.ByPath[ModPath+"/"+rel]
